@@ -102,7 +102,7 @@ def user_regime(rng, cfg, thumb=None):
     it = 0
     if thumb and rng.random() < 0.25:
         it = rng.randrange(1, 256)
-    cpsr = G.random_cpsr(rng, cfg, mode='usr', thumb=thumb, it=it)
+    cpsr = G.random_cpsr(rng, cfg, mode='usr', thumb=thumb, it=it, e=None)
     pmsa = cfg['memory_system_architecture'] == 'PMSA'
     mpu_on = pmsa and rng.random() < 0.6
     sct = G.sctlr_value(m=int(mpu_on), a=int(rng.random() < 0.3), v=int(rng.random() < 0.2), u=rng.getrandbits(1), te=rng.getrandbits(1),
